@@ -106,7 +106,11 @@ def generate(ctx, thorough):
         r3 = ctx.tlc("Session_MC", cfg, workers=1, simulate="num=3000", depth=9, seed=ctx.seed, timeout=600)
         if "Error" in r3.out and "SIM" not in r3.out:
             raise vlib.Infra("Session_MC simulation failed: " + r3.out[-800:])
-        sims = parse_hists(r3.out, "SIM")
+        # TLC evaluates the invariant on every candidate successor of the last step: keep one complete walk per prefix
+        byprefix = collections.OrderedDict()
+        for h in parse_hists(r3.out, "SIM"):
+            byprefix.setdefault(tuple(h[:-1]), []).append(h)
+        sims = [rng.choice(v) for v in byprefix.values()]
         fams["sim8"] = [[abc[i - 1] for i in h] for h in sims]
     return fams, dict(alphabet=len(abc), universe=len(allmsgs), witnesses=len(wits), gen_states=r1.distinct + r2.distinct,
                       gen_transitions=r1.generated + r2.generated)
